@@ -481,6 +481,24 @@ def run(prog, check):
                          'the clean-up removes the first character only' if ok_sl else
                          'the clean-up keeps `%s` of the right-hand side: a different text is compared with the variable names, so an equation '
                          'that is no alias is substituted away' % unparse(x_), 'INC = +YD next to a variable D')
+    # the k=0 constant passes (endogenous and set-aside variables) step over the same evaluation failures: a value the unreduced
+    # system cannot compute at k=0 and leaves at 0.0 must not raise in the reduced system (sibling cross-check of the handlers)
+    from ..cfg import handler_types as _ht3
+    sib = []
+    for lp_ in [x_ for x_ in ast.walk(icf.node) if isinstance(x_, ast.For) and isinstance(x_.iter, ast.Attribute) and
+                x_.iter.attr in ('Decoration', 'Endogenous')]:
+        for t_ in [x_ for x_ in ast.walk(lp_) if isinstance(x_, ast.Try)]:
+            if any(isinstance(c_, ast.Call) and call_name(c_) == 'eval' for b_ in t_.body for c_ in ast.walk(b_)):
+                sib.append((lp_.iter.attr, t_, tuple(sorted(ty_ for h_ in t_.handlers for ty_ in _ht3(h_)))))
+    if len({a_ for a_, _t, _h in sib}) >= 2:
+        kinds_ = {h_ for _a, _t, h_ in sib}
+        for a_, t_, h_ in sib:
+            okh = len(kinds_) == 1
+            check.ob('C03.R5', '%s::k0-passes-step-over-the-same-errors(%s)' % (icf.key, a_), okh, '%s:%d' % (icf.module.rel, t_.lineno),
+                     'the k=0 passes over Endogenous and Decoration catch the same exceptions (%s)' % ', '.join(h_) if okh else
+                     'the k=0 pass over %s catches %s, the other pass %s: an equation that cannot be evaluated at k=0 is stepped over in one '
+                     'form of the system and raises in the other' % (a_, ', '.join(h_), ' / '.join(', '.join(k_) for k_ in sorted(kinds_ - {h_}))),
+                     'a set-aside variable y = 1/t with t(0) = 0, reduction on and off')
     # the optional steady-state start treats the variables set aside like the solved ones
     from ._common import steady_state_covers_all_series, steady_state_loop
     ssf_, loop_, subst_ = steady_state_loop(prog)
